@@ -21,12 +21,15 @@ structure Tok where
   stop : Nat
   deriving Repr
 
-def modelToks (inp : Bytes) : List Tok :=
+def toksOf (lexed : List (Kind × Nat)) : List Tok :=
   let rec go (ts : List (Kind × Nat)) (pos : Nat) (acc : List Tok) : List Tok :=
     match ts with
     | [] => acc.reverse
     | (k, n) :: rest => go rest (pos + n) (⟨k.name, pos, pos + n⟩ :: acc)
-  go (lexAll inp) 0 []
+  go lexed 0 []
+
+/-- the lexer of the unchanged tree -/
+def modelToks (inp : Bytes) : List Tok := toksOf (lexAll inp)
 
 /-- `(toks Kind xhex Kind xhex …)` -/
 def parseToks : List Sexp → Option (List (String × List UInt8))
@@ -179,6 +182,13 @@ def handleLex : Handler := fun s =>
     let cmp := compareToks (mToks.length + iToks.length + 2) mToks iToks modelTotal {}
     let totalOk := if nulPos.isSome then modelTotal ≤ implTotal else modelTotal == implTotal
     let corr := cmp.ok && totalOk
+    -- if the real lexer no longer agrees on an input with a NUL byte, does it agree with the *fixed* model
+    -- (fixes/C13-nul.patch)?  Then the patch has landed and `modelToks` must be switched to `lexAllFixed`.
+    let agreesWithFixed :=
+      if corr || nulPos.isNone then false else
+        let fToks := toksOf (lexAllFixed inp)
+        let fTotal := match fToks.getLast? with | some t => t.stop | none => 0
+        (compareToks (fToks.length + iToks.length + 2) fToks iToks fTotal {}).ok && fTotal == implTotal
     -- oracle, on the implementation's own output
     let pre := matchPrefix inp toks 0
     let lossless := pre == some inp.size && textlen == inp.size
@@ -201,7 +211,8 @@ def handleLex : Handler := fun s =>
       else if vFault != "" then "v" ++ vFault
       else ""
     let oracle := cls == ""
-    let cls := if !oracle then cls else if !corr then (if !cmp.ok then "boundaries" else "total-length") else ""
+    let cls := if !oracle then cls else if !corr then
+      (if agreesWithFixed then "lexer-has-nul-fix" else if !cmp.ok then "boundaries" else "total-length") else ""
     let tags := baseTags ++ cmp.tags.reverse ++ [s!"validate:{stageWord validate}", s!"compile:{stageWord compile}"] ++
       (if diags.isEmpty then [] else ["parse-diags"]) ++ (if isPanic compile then ["compile-panic"] else []) ++
       (if toks.any (fun t => t.1 == "Eof" && !t.2.isEmpty) then ["eof-token-nonempty"] else [])
